@@ -5,6 +5,7 @@ again and the mutant counts as killed when some proof obligation is no longer
 discharged. Survivors must be declared equivalent in the spec, with a reason.
 """
 import ast
+import z3
 import multiprocessing as mp
 import os
 
@@ -108,7 +109,7 @@ def _one(args):
         if bad:
             return {"id": mid, "target": target_ref, "status": "killed", "by": bad[0][0], "how": bad[0][1]}
         return {"id": mid, "target": target_ref, "status": "survived"}
-    except (EngineError, SpecDrift, TypeError, AttributeError) as ex:
+    except (EngineError, SpecDrift, TypeError, AttributeError, z3.Z3Exception) as ex:
         # TypeError/AttributeError: a spec lambda no longer fits the values the mutated code produces
         return {"id": mid, "target": target_ref, "status": "killed", "by": "engine: %s" % str(ex)[:200], "how": "undecided"}
     except Exception as ex:  # noqa
